@@ -104,8 +104,18 @@ func (s *Scope) Invoke(function interface{}, opts ...InvokeOption) (err error) {
 		return newErrInvalidInput(fmt.Sprintf("can't invoke a nil function (type %v)", ftype), nil)
 	}
 
+	// Parsing the parameters adds graph nodes for value group parameters to
+	// this scope and its descendants. If the function is rejected, remove
+	// the nodes of the parameters that were parsed before the bad one.
+	allScopes := s.appendSubscopes(nil)
+	for _, sc := range allScopes {
+		sc.gh.Snapshot()
+	}
 	pl, err := newParamList(ftype, s)
 	if err != nil {
+		for _, sc := range allScopes {
+			sc.gh.Rollback()
+		}
 		return err
 	}
 
